@@ -17,8 +17,8 @@ LEVEL_TEXT = (
 
 CHECKS = {
     "C02": dict(
-        rules="R02.1-R02.21, R11.11",
-        what="every accepting return of find_cache_meta/validate_meta is dominated by a rejecting gate for each required meta field (or its named bypass); SCC freshness is the conjunction of its three tests (truth-table evaluation); State.is_fresh conjuncts; cached errors of fresh modules are replayed; stored and compared values of each gate field come from the same producer; the indirect-dependency visitor reaches every type component; the fast path and the import-cycle path of transitive_dep_hash select and hash the same dependencies; protocol member types (inherited members, setter types) reach the indirect dependencies; the signature of an implicitly called dunder method is recorded for them (known finding); generic callee type variables (known finding); de-duplication scope vs cached lines (known finding); the plugins snapshot is replaced only after process_graph (CFG); only hashed dependencies count as existing when indirect dependencies are patched in; every `Metadata abandoned` test of find_cache_meta looks at the meta (one known finding: plugins); what the diagnosis of a missing import reads from the importing State has a stand-in in the cache record (R02.19; inline configuration: known finding); what FindModuleCache memoises for a module id does not depend on a per-call flag outside the key (R02.20); exist_added_packages recognises namespace packages (directories) as well as __init__ files (R02.21)",
+        rules="R02.1-R02.22, R11.11",
+        what="every accepting return of find_cache_meta/validate_meta is dominated by a rejecting gate for each required meta field (or its named bypass); SCC freshness is the conjunction of its three tests (truth-table evaluation); State.is_fresh conjuncts; cached errors of fresh modules are replayed; stored and compared values of each gate field come from the same producer; the indirect-dependency visitor reaches every type component; the fast path and the import-cycle path of transitive_dep_hash select and hash the same dependencies; protocol member types (inherited members, setter types) reach the indirect dependencies; the signature of an implicitly called dunder method is recorded for them (known finding); generic callee type variables (known finding); de-duplication scope vs cached lines (known finding); the plugins snapshot is replaced only after process_graph (CFG); only hashed dependencies count as existing when indirect dependencies are patched in; every `Metadata abandoned` test of find_cache_meta looks at the meta (one known finding: plugins); what the diagnosis of a missing import reads from the importing State has a stand-in in the cache record (R02.19; inline configuration: known finding); what FindModuleCache memoises for a module id does not depend on a per-call flag outside the key (R02.20); exist_added_packages recognises namespace packages (directories) as well as __init__ files (R02.21); a record is re-attached to a new path on a hash match only between files of the same kind, source or stub (R02.22)",
         quant="edit histories with a run after every edit, in four store x format configurations",
         technique="CFG must-pass-through with polarity, abstract (truth-table) evaluation of the freshness flag, producer cross-check, component-coverage matrix",
         note="That the gate set is *sufficient* for every edit history is the behavioural part and is not decided. The serializer quadruples of CacheMeta/CacheMetaEx/State are decided by C11 (R11.1-R11.4).",
